@@ -14,7 +14,8 @@ RULE = ("(a) exhaustive: chains of length 1..3 (quick) / 1..4 (thorough), with a
         "before the chain's else is reached; (b) random structured programs. "
         "Output and end status are compared with the Lean model and with the structured big-step semantics of the tree. "
         "Non-trivial: the chain has an else or more than one condition."
-        ' Close-values family: 11 pairs of neighbouring doubles (2^53 +- 1/2, 10^18 + 128, 0.1 + 0.2 vs 0.3, 1/3*3, 1 + ulp) in ==/</else and !=/else chains and list equality.')
+        ' Close-values family: 11 pairs of neighbouring doubles (2^53 +- 1/2, 10^18 + 128, 0.1 + 0.2 vs 0.3, 1/3*3, 1 + ulp) in ==/</else and !=/else chains and list equality.'
+        ' Shared name-collision family (props/collisions.py): 24 scenarios in which one name is bound more than once, x 2 layouts.')
 ASSUMPTIONS = ["generated programs terminate; loops are counter-guarded"]
 default_compare = lambda m, i: C.compare_run(m, i)
 
@@ -197,4 +198,10 @@ def cases(rng, tier, stats):
         out.append(prog_case("random-program", prog, rng=r, mode=r.choice(["lines", "wild"])))
     stats["random_programs"] = nr
     stats["statement_kinds"] = agg
+    # one name in two roles (props/collisions.py): shadowed functions, parameters named like globals / built-ins / their own function,
+    # bare conditions, indexed and plain writes, re-declarations — every use of a name resolves to its innermost binding
+    from props import collisions
+    nc_ = collisions.family()
+    out += nc_
+    stats["name_collision_programs"] = len(nc_)
     return out
